@@ -21,7 +21,7 @@ EXPLANATION = (
     " (R8) the VCF-text header sub-reader (vcf, bcf; sync and async) agrees with the majority of the ten copies of that state machine."
     " (R10) the async VCF writer clears its line buffer before the inner writer fills it; (R11) element-wise reset: every per-sample value row of the reused Samples is cleared (loop, for_each(clear), whole clear, or a callee that resets on all success paths) before parse_values — which returns Ok untouched for a `.` column — fills it."
     " (R12) decode after split: no function splits (split / split_once / memchr) a value that derives from the result of percent_decode."
-    " (R13) table agreement of the header enums: every variant the header writer spells as a literal is the result of an arm of the header parser (genuine defect F46, repaired: FORMAT numbers LA / LR / LG / P / M were written but not parsed). (R14) the header string parser finds the closing quote with a stateful escape scan (shared with C18.R3). (R15) every field of a header map kind's inner struct is read by its writer (genuine defect F55, repaired: IDX). (R16) the lazy parse_first_allele decides the implicit phasing over all separators.")
+    " (R13) table agreement of the header enums: every variant the header writer spells as a literal is the result of an arm of the header parser (genuine defect F46, repaired: FORMAT numbers LA / LR / LG / P / M were written but not parsed). (R14) the header string parser finds the closing quote with a stateful escape scan (shared with C18.R3). (R15) every field of a header map kind's inner struct is read by its writer (genuine defect F55, repaired: IDX). (R16) the lazy parse_first_allele decides the implicit phasing over all separators. (R17) the lazy Info::get tokenises from the start of the INFO string (no unverified substring search for the key).")
 ASSUMPTIONS = ["percent-encoding crate encodes exactly the bytes in the AsciiSet (plus non-ASCII) and decodes %XX",
                "reader delimiter constants are the named DELIMITER/SEPARATOR consts of the reader modules (floor-checked)"]
 NOT_DECIDED = ["value equality over the VCF grammar (numbers, floats, genotype strings, header records)",
@@ -283,6 +283,29 @@ def run(ctx):
                           "parse_first_allele decides the implicit phasing of the first allele from %s instead of visiting every separator: "
                           "for a polyploid genotype with mixed phasing the lazy view disagrees with the eager parser and the writer" % (
                               ", ".join(sorted(first)) or "no whole-genotype scan"), f16.loc())
+
+    ctx.rule("C09.R17", "the lazy Info::get tokenises the INFO string from its START: the cursor handed to field::next is the whole string, not a "
+                        "suffix found by a substring search for the key (str::find / rfind / match_indices / split_once): a key that is the "
+                        "tail of an earlier key (CIEND=..;END=.., MAF=..;AF=..) would make the cursor land inside that field (second C09 "
+                        "seed); expected 0 substring searches")
+    f17 = ctx.anchor("C09.R17", "noodles_vcf::record::info::Info::<'r>::get")
+    if f17 is not None:
+        ctx.saw_fn(f17)
+        subs = [(b, c) for g in fb.family(f17.key) for b, c in g.calls()
+                if re.search(r"str::<impl str>::(find|rfind|match_indices|rmatch_indices|split_once|rsplit_once|contains|strip_prefix)$", c.get("f") or "")]
+        nexts = [b for b, c in f17.calls() if re.search(r"info::field::next$", c.get("f") or "")]
+        if not nexts:
+            ctx.violation("C09.R17", "C09.R17/ANCHOR-MISSING/Info::get/field::next", "Info::get no longer tokenises with field::next", f17.loc())
+        elif subs and not any((C.op_const(o) or {}).get("v") in (0x3b, ";") for g in fb.family(f17.key) for blk in g.blocks for st in blk["s"]
+                              if st[0] == "=" for o in R.rvalue_operands(st[2])) and \
+                not any(isinstance(v, int) and v == 0x3b for g in fb.family(f17.key) for blk in g.blocks if blk["t"][0] == "sw" for v, _t in blk["t"][2]):
+            # (a substring search whose hit is verified against the field delimiter `;` would be a correct optimisation: not reported)
+            ctx.violation("C09.R17", "C09.R17/key-located-by-substring-search/" + f17.key,
+                          "Info::get positions its cursor with %s: the INFO string is searched for the key as a substring, so the tokeniser can "
+                          "start inside an earlier field whose key ends with the looked-up key, and lazy get / variant_end disagree with the "
+                          "eager record" % (subs[0][1].get("f") or "").split("::")[-1], f17.loc(subs[0][0]))
+        else:
+            ctx.ok("C09.R17", f17.key, "tokenises from the start of the INFO string (no unverified substring search)", f17.loc(nexts[0]))
 
     ctx.rule("C09.R4", "impl table: variant_end / variant_span are single provided implementations (lazy and eager share them)")
     tr = fb.traits.get(V + "variant::record::Record")
